@@ -17,6 +17,7 @@
 import UnicLocale.Lemmas.RefineInv
 import UnicLocale.Lemmas.ReachOps
 import UnicLocale.Props.C05
+import UnicLocale.Lemmas.LikelySpec
 
 namespace UL.Props.C10
 open UL UL.Rf
@@ -365,6 +366,14 @@ theorem histories_full_from_parsed (T : Tables) (hT : tablesWF T = true) (bs : B
     (∀ r ∈ run T x os, r.1.inv = true ∧ Locale.fromBytes (Locale.display r.1) = .ok r.1) := by
   have h := histories_full T hT x (UL.Props.C05.parsed_locale_inv bs x hbs) os
   exact ⟨h.1, fun r hr => ⟨(h.2.2 r hr).1, (h.2.2 r hr).2.1⟩⟩
+
+/-- the same step refinement against the reference model whose likely-subtags content is the
+    dictionary formulation of C06/C08 over the tables (`maximize_eq_spec`, `minimize_eq_spec` plugged in) -/
+theorem refine_step_dictionary (T : Tables) (hT : tablesWF T = true) (x : Locale) (o : Op) (hx : x.inv = true) :
+    abs (step T x o).1 = (Spec.absStep (Spec.specLikely T) (abs x) o).1 ∧
+    (step T x o).2 = (Spec.absStep (Spec.specLikely T) (abs x) o).2 :=
+  refine_step_spec T (fun l s r hv => UL.maximize_eq_spec T hT l s r hv)
+    (fun l s r hv => UL.minimize_eq_spec T hT l s r hv) x o hx
 
 /-! ### non-vacuity and pinned instances -/
 
